@@ -76,3 +76,53 @@ Theorem C02_rdflib_graphs_stream_valid :
     run (flat_map f_rows (emitted evs)) = Valid (flat_map run_events (graphs_inv (rd_graphs d))).
 Proof. exact rdf_graphs_stream_valid. Qed.
 Print Assumptions C02_rdflib_graphs_stream_valid.
+
+(* the rdflib TripleStream over a Dataset: graph by graph, all triples of all graphs, in order *)
+From PJ.Proofs Require Import EncRdflibDataset.
+Theorem C02_rdflib_triples_over_dataset_valid :
+  forall (o : soptions) (s s' : stream) (d : rdata) (evs : list tev),
+    stream_new TripleStream Rdflib o = Ok s -> cfg_ok o (st_logical s) ->
+    p_nd (so_params o) = false -> fl_rows (st_flow s) = [] ->
+    rd_kind d = RDataset -> forallb stmts_rdf11 (map snd (rd_graphs d)) = true ->
+    rdf_triples_stream_frames d s = (s', evs) -> raised evs = None ->
+    run (flat_map f_rows (emitted evs)) = Valid (flat_map event_of_triple (concat (map snd (rd_graphs d)))).
+Proof. exact rdf_triples_dataset_stream_valid. Qed.
+Print Assumptions C02_rdflib_triples_over_dataset_valid.
+
+(* ---- at the byte level, through the rdflib parser ---- *)
+From PJ.Proofs Require Import WireRT BytesE2E RdflibBytes.
+
+(* the rdflib parser model (a second copy of the decoder) reads any valid stream without quoted
+   triples -- all the rdflib writer can produce -- to exactly what the referee assigns it *)
+Theorem C02_rdflib_parser_reads_valid_bytes :
+  forall (fs : list frame) (evs : list event) (grouped : bool),
+    run_frames fs = Valid evs -> Forall small fs -> rows_rdf11 (flat_map f_rows fs) ->
+    (match fs with f :: _ => (f_rows f = [] /\ f_meta f = []) \/ f_rows f <> [] | [] => True end) ->
+    let r := parse_stream Rdflib grouped false (write_delimited fs) in
+    flat_events r = evs /\ pr_end r = PEnd /\ length (pr_frames r) = length fs.
+Proof. exact valid_bytes_decode_rdflib. Qed.
+Print Assumptions C02_rdflib_parser_reads_valid_bytes.
+
+(* Graph.serialize -> bytes -> rdflib parser: the input triples, in the order rdflib iterated them *)
+Theorem C02_rdflib_bytes_round_trip_graph :
+  forall (o : soptions) (s s' : stream) (d : rdata) (evs : list tev) (grouped : bool),
+    stream_new TripleStream Rdflib o = Ok s -> cfg_ok o (st_logical s) ->
+    p_nd (so_params o) = false -> fl_rows (st_flow s) = [] ->
+    rd_kind d <> RDataset -> stmts_rdf11 (rd_stmts d) = true ->
+    rdf_triples_stream_frames d s = (s', evs) -> raised evs = None -> Forall small (emitted evs) ->
+    let r := parse_stream Rdflib grouped false (write_delimited (emitted evs)) in
+    flat_events r = flat_map event_of_triple (rd_stmts d) /\ pr_end r = PEnd /\ length (pr_frames r) = length (emitted evs).
+Proof. exact rdf_triples_bytes_round_trip. Qed.
+Print Assumptions C02_rdflib_bytes_round_trip_graph.
+
+(* Dataset.serialize (QuadStream) -> bytes -> rdflib parser *)
+Theorem C02_rdflib_bytes_round_trip_dataset :
+  forall (o : soptions) (s s' : stream) (d : rdata) (evs : list tev) (grouped : bool),
+    stream_new QuadStream Rdflib o = Ok s -> cfg_ok o (st_logical s) ->
+    p_nd (so_params o) = false -> fl_rows (st_flow s) = [] ->
+    forallb spo_rdf11 (rd_stmts d) = true ->
+    rdf_quads_stream_frames d s = (s', evs) -> raised evs = None -> Forall small (emitted evs) ->
+    let r := parse_stream Rdflib grouped false (write_delimited (emitted evs)) in
+    flat_events r = flat_map event_of_quad (map quad_inv (rd_stmts d)) /\ pr_end r = PEnd /\ length (pr_frames r) = length (emitted evs).
+Proof. exact rdf_quads_bytes_round_trip. Qed.
+Print Assumptions C02_rdflib_bytes_round_trip_dataset.
